@@ -94,7 +94,7 @@ func H_C08_repeat() {
 	flags.steps = 2
 	L := 10
 	if thorough() {
-		L = 14
+		L = 12
 	}
 	tb := newVTB("SM")
 	t := newT(tb, newBufBitStream(symWords("w", L), false), false, nil)
